@@ -842,3 +842,7 @@ Proof.
       replace (m =? 0) with false by lia. subst e. reflexivity.
 Qed.
 End Spec.
+Lemma layout_bijective : forall f, fmt_ok f ->
+  (forall bits, 0 <= bits < 2 ^ (fb f + eb f + 1) -> spec_decode f bits <> FNan -> spec_encode f (spec_decode f bits) = bits) /\
+  (forall x, valid_fval f x -> spec_decode f (spec_encode f x) = x /\ 0 <= spec_encode f x < 2 ^ (fb f + eb f + 1)).
+Proof. intros f Hf. split; [exact (spec_encode_decode f Hf) | exact (spec_decode_encode f Hf)]. Qed.
